@@ -27,7 +27,7 @@ def main():
     if a.only:
         import re
         insts = [i for i in insts if re.search(a.only, i.name)]
-    return core.run_check(a.property, a.tier, seed, mod.META, insts, build, level=getattr(mod, 'LEVEL', 'model_checking'))
+    return core.run_check(a.property, a.tier, seed, mod.META, insts, build, level=getattr(mod, 'LEVEL', 'model_checking'), partial=bool(a.only))
 
 
 if __name__ == '__main__':
